@@ -615,8 +615,16 @@ const JSONS: &[&str] = &[
 ];
 
 pub fn run_steps(w: &mut World, steps: &[Step], o: &mut Outcome) {
+    let mut prev_stage = String::from("setup");
     for (si, step) in steps.iter().enumerate() {
-        let _ = take_panics();
+        // a panic recorded after the probe of the previous step belongs to that step
+        if report_panics(o, &prev_stage, &format!("recorded after the probe of step {}", si as i64 - 1)) > 0 {
+            o.count("instance_restarts_after_panic", 1);
+            if w.restart().is_err() {
+                o.discard = Some("restart-failed".into());
+                return;
+            }
+        }
         let mut stage = String::new();
         let mut detail = format!("step {}", si);
         let mut timed_out = false;
@@ -711,7 +719,19 @@ pub fn run_steps(w: &mut World, steps: &[Step], o: &mut Outcome) {
                 }
             }
         }
-        // give service threads the time to record what they were doing
+        // quiescence: what the step submitted (including the daily log recomputation it may have
+        // scheduled) has been processed before the verdict
+        {
+            let peer_db = w.peer.db.clone();
+            let _ = w.guarded(async move {
+                let _ = peer_db.datamodel().await;
+                peer_db.compute_daily_log().await;
+                let _ = peer_db.datamodel().await;
+            });
+            let fence = w.rt.block_on(async { tokio::time::timeout(Duration::from_secs(10), w.peer.fence()).await });
+            let _ = fence;
+        }
+        prev_stage = stage.clone();
         let panics = report_panics(o, &stage, &detail);
         if timed_out {
             if panics == 0 {
